@@ -149,7 +149,13 @@ class InstanceManager:
 
     def reconstruct_instance(self,instance_uuid,timeout,time,session_state):
         instance = self._make_bptk()
-        instance._set_state(session_state)
+        try:
+            instance._set_state(session_state)
+        except Exception as e:
+            # a stored state that is damaged (not a session state) costs this one instance only
+            print("Error: " + str(e))
+            instance.destroy()
+            return False
 
         instance_data = {
             "instance": instance,
@@ -158,6 +164,7 @@ class InstanceManager:
         }
 
         self._instances[instance_uuid] = instance_data
+        return True
 
     def _timeout_instances(self):
         """
@@ -985,7 +992,6 @@ class BptkServer(Flask):
         if instance == None:
             return False
 
-        self._instance_manager.reconstruct_instance(instance.instance_id, instance.timeout, instance.time, instance.state)
-        return True
+        return self._instance_manager.reconstruct_instance(instance.instance_id, instance.timeout, instance.time, instance.state)
         
         
